@@ -23,6 +23,22 @@ pub fn cshape_of(s: &Shape) -> CShape {
         Shape::Path(g) => CShape::Path(g.points.iter().map(p).collect(), g.width as i64),
     }
 }
+/// An imported library is self-contained: what its instances point at are its own cell objects (members of `lib.cells`, by identity), not
+/// equal copies - otherwise an edit of a cell is not seen through its instances and a re-export defines the cell twice or not at all.
+/// Returns the first offending (cell, instance target) pair.
+pub fn foreign_target(lib: &Library) -> Option<(String, String)> {
+    for c in lib.cells.iter() {
+        let c = c.read().ok()?;
+        if let Some(l) = &c.layout {
+            for i in &l.insts {
+                if !lib.cells.iter().any(|m| *m == i.cell) {
+                    return Some((c.name.clone(), i.cell.read().map(|t| t.name.clone()).unwrap_or_default()));
+                }
+            }
+        }
+    }
+    None
+}
 /// The stored form of a shape: a rectangle's two corners as given (not normalised), a polygon's and a path's vertices in their own order.
 /// `as_exported`: the form the shape is expected to come back in - GDSII has no rectangle, so a four-vertex axis-parallel polygon returns as
 /// the rectangle spanned by its first and third vertices (the one identification the round trip makes); everything else returns as it was.
@@ -303,6 +319,10 @@ impl C07 {
             }
             Ok(Ok(l)) => l,
         };
+        if let Some((c, t)) = foreign_target(&back) {
+            cx.violation("import|instance-target-is-not-a-cell-of-the-library", json!({"cell": c, "target": t}));
+            return false;
+        }
         if back.units != g.lib.units {
             cx.violation(&format!("units-changed|{}", unit), json!({"want": unit, "got": format!("{:?}", back.units)}));
             return false;
